@@ -891,6 +891,10 @@ impl Indexable for ast::SimpleValue {
                     .values()
                     .filter_map(|value| value.index(ctx))
                     .collect();
+                // `[a, b]<T>` and `[]<T>` spell the element type out
+                if let Some(typ) = list.r#type() {
+                    return Some(Type::List(Box::new(typ.index(ctx)?)));
+                }
                 value_types
                     .into_iter()
                     .next()
